@@ -435,8 +435,8 @@ def r3_connectives(chk: Check):
         done = [b for b in gs.live if b.kind == "branch" and b.extra["test"] is lp and b.extra["polarity"] == "done"]
         if not (done and all(gs.dominates(b, multi[0]) for b in done[:1])) or gs.exit.id in gs.reachable(done[0], avoid=[multi[0]]) if done else True:
             why.append("the accumulator must be returned on every path once the loop is over")
-        init = [n for n in gs.live if n.kind == "stmt" and isinstance(n.ast, ast.Assign) and src(n.ast.targets[0]) == acc and src(n.ast.value) == f"{prm}[1]" and gs.dominates(n, lp)]
-        left0 = [n for n in gs.live if n.kind == "stmt" and isinstance(n.ast, ast.Assign) and src(n.ast.targets[0]) == f"{acc}.x" and src(n.ast.value) == f"{prm}[0]" and gs.dominates(n, lp)]
+        init = [n for n in gs.live if n.kind == "stmt" and isinstance(n.ast, ast.Assign) and src(n.ast.targets[0]) == acc and rds.canon(n.ast.value, n) == f"{prm}[1]" and gs.dominates(n, lp)]
+        left0 = [n for n in gs.live if n.kind == "stmt" and isinstance(n.ast, ast.Assign) and src(n.ast.targets[0]) == f"{acc}.x" and rds.canon(n.ast.value, n) == f"{prm}[0]" and gs.dominates(n, lp)]
         if not (len(init) == 1 and len(left0) == 1 and gs.dominates(init[0], left0[0])):
             why.append(f"before the loop: `{acc} = {prm}[1]` then `{acc}.x = {prm}[0]`")
         body0 = [m for m, l in lp.succ if l == "loop"]
